@@ -8,7 +8,10 @@
 (*             system's VerifyOk holds, and so do the declarative readings Necessary /   *)
 (*             Honest;                                                                   *)
 (*   guest   - the system's device behaviours are device records of GuestClient, and     *)
-(*             "good" is the only one for which DeviceYieldsData holds.                  *)
+(*             "good" is the only one for which DeviceYieldsData holds;                  *)
+(*   tool    - CheckTool's exit code is 0 exactly for the cases in which the system      *)
+(*             delivers the quote (valid / forged quote, trusted / other root given by   *)
+(*             flag or config, policy field by flag and config, collateral or not).      *)
 (* It is evaluated by TLC as an invariant of TdxVerify's own specification with K = 0    *)
 (* (the baseline world), i.e. once.                                                      *)
 (***************************************************************************************)
@@ -54,5 +57,18 @@ GuestAbstractionHolds ==
   \A d \in DOMAIN SysDevices : /\ SysDevices[d] \in G!Devices
                                /\ G!DeviceYieldsData(SysDevices[d]) = (d = "good")
 
-AbstractionsHold == VerifyAbstractionHolds /\ GuestAbstractionHolds
+\* tools/check is the relying party's half of the system behind a command line: it exits 0 exactly when the system would deliver the quote
+CT == INSTANCE CheckTool WITH Budget <- 1, c <- 0, pc <- 0, exit <- 0
+ToolAbstractionHolds ==
+  \A quote \in {"valid", "forged"}, roots \in {"flagGood", "flagWrong", "configGood", "configWrong"}, fv \in {"absent", "match", "mismatch"},
+     cv \in {"absent", "match", "mismatch"}, net \in {"off", "honest"} :
+    LET cc == [CT!Base EXCEPT !.quote = quote, !.roots = roots, !.flag = fv, !.cfg = cv, !.net = net]
+        effective == IF fv # "absent" THEN fv ELSE cv                       \* a flag, when given, overrides the config
+        delivers == /\ SysVerifyOk(IF quote = "forged" THEN "flipSigned" ELSE "intact",
+                                   IF roots \in {"flagGood", "configGood"} THEN "trusted" ELSE "otherRoot",
+                                   IF net = "off" THEN 0 ELSE 1, "ok")
+                    /\ effective # "mismatch"
+    IN (CT!ExitSet(cc) = {0}) = delivers
+
+AbstractionsHold == VerifyAbstractionHolds /\ GuestAbstractionHolds /\ ToolAbstractionHolds
 =================================================================================
